@@ -28,11 +28,11 @@ HB_UNWIND = ','.join(f'{f}.{k}:14' for f in ('vp_hb_init', 'vp_hb_fork', 'vp_hb_
 
 class Query:
     def __init__(s, name, cpp, q, defines=(), unwind=3, unwindset=None, timeout=600, solvers=('kissat', 'minisat'), checks=None,
-                 witness=True, expect_witness=True, note='', mem_gb=24, extra_flags=(), must_cover=0, tv=True):
+                 witness=True, expect_witness=True, note='', mem_gb=24, extra_flags=(), must_cover=0, tv=True, cflags=()):
         s.name, s.cpp, s.q, s.defines = name, cpp, q, tuple(defines)
         s.unwind, s.unwindset, s.timeout, s.solvers = unwind, unwindset, timeout, tuple(solvers)
         s.checks, s.witness, s.note, s.mem_gb = checks, witness, note, mem_gb
-        s.extra_flags = tuple(extra_flags); s.must_cover = must_cover; s.tv = tv
+        s.extra_flags = tuple(extra_flags); s.must_cover = must_cover; s.tv = tv; s.cflags = tuple(cflags)
 
 
 def sh(cmd, **kw):
@@ -42,12 +42,12 @@ def sh(cmd, **kw):
 _ll_cache = {}
 
 
-def compile_ll(work, cpp, defines):
-    key = (cpp, tuple(defines))
+def compile_ll(work, cpp, defines, cflags=()):
+    key = (cpp, tuple(defines), tuple(cflags))
     if key in _ll_cache: return _ll_cache[key]
     h = hashlib.sha1(repr(key).encode()).hexdigest()[:12]
     out = os.path.join(work, f"{os.path.basename(cpp)[:-4]}_{h}.ll")
-    cmd = [CLANG] + CLANG_FLAGS + [f"-D{d}" for d in defines] + [os.path.join(ROOT, 'harness', cpp), '-o', out]
+    cmd = [CLANG] + list(cflags) + CLANG_FLAGS + [f"-D{d}" for d in defines] + [os.path.join(ROOT, 'harness', cpp), '-o', out]
     r = sh(cmd)
     if r.returncode != 0:
         raise RuntimeError("harness does not compile against /repo:\n" + r.stdout[-3000:])
@@ -143,7 +143,7 @@ def extract_schedule(trace, tnames):
     return dict(contexts=sched, nondet=nd[:64], draws=draws)
 
 
-def native_replay(cfile, draws, workdir, flags=()):
+def native_replay(cfile, draws, workdir, flags=(), expect=None):
     """Replay a counter-example on the native build of the same generated C (gcc + ASan/UBSan, real semantics instead of cbmc's
     models of the C library): returns (reproduced, detail).  A counter-example that does not reproduce is an encoding
     divergence (exit 2), never a VIOLATION."""
@@ -161,7 +161,14 @@ def native_replay(cfile, draws, workdir, flags=()):
     fails = re.findall(r'ASSERT-FAIL id=(-?\d+) (.*)', p.stdout)
     san = re.findall(r'(ERROR: AddressSanitizer: [\w-]+|runtime error: [^\n]{0,80}|SEGV)', p.stderr)
     if fails or san:
-        return True, '; '.join([f'id={i} {t}'[:90] for i, t in fails[:3]] + san[:2])
+        detail = '; '.join([f'id={i} {t}'[:90] for i, t in fails[:3]] + san[:2])
+        if expect:
+            m = re.match(r'vp_assert id=(-?\d+)', expect)
+            if m: same = any(i == m.group(1) for i, _ in fails)
+            elif any(k in expect for k in ('dereference failure', 'double free', 'pointer relation', 'free argument', 'pointer arithmetic')): same = bool(san)
+            else: same = any(expect[:60] in t for _, t in fails)
+            if not same: return False, 'native run fails differently: ' + detail
+        return True, detail
     if 'ASSUME-FAIL' in p.stdout: return False, 'native run left the assumed region (assume failed)'
     return False, 'native run of the generated C finished without any failure'
 
@@ -175,7 +182,7 @@ def translation_validate(Q, cfile, work, k, seed):
     gen = cfile[:-2] + '.tvgen'; real = cfile[:-2] + '.tvreal'
     r = sh(['gcc', '-DVP_NATIVE', '-DVP_GREEDY', '-O0', '-w', '-I', os.path.join(ROOT, 'engine')] + list(Q.extra_flags) + [cfile, os.path.join(ROOT, 'engine', 'vp_native.c'), '-o', gen])
     if r.returncode != 0: return dict(error='generated C does not build natively: ' + r.stdout[-300:])
-    r = sh(['g++', '-std=c++17', '-O1', '-w', '-I', REPO, '-I', os.path.join(ROOT, 'harness')] + [f'-D{d}' for d in Q.defines] +
+    r = sh(['g++', '-std=c++17', '-O1', '-w'] + list(Q.cflags) + ['-I', REPO, '-I', os.path.join(ROOT, 'harness')] + [f'-D{d}' for d in Q.defines] +
            [os.path.join(ROOT, 'harness', Q.cpp), os.path.join(ROOT, 'engine', 'vp_native_real.cpp'), '-rdynamic', '-ldl', '-pthread', '-o', real])
     if r.returncode != 0: return dict(error='harness does not build natively: ' + r.stdout[-300:])
     threads = Q.q.get('threads', []); order = Q.q.get('order', list(range(len(threads))))
@@ -222,7 +229,7 @@ class Runner:
 
     def prepare(s, Q):
         """translate query -> C file; returns (cfile, report)"""
-        ll = compile_ll(s.work, Q.cpp, Q.defines)
+        ll = compile_ll(s.work, Q.cpp, Q.defines, Q.cflags)
         text, rep = ir2c.translate(open(ll).read(), Q.q)
         cfile = os.path.join(s.work, Q.name + '.c')
         open(cfile, 'w').write(text)
@@ -232,7 +239,7 @@ class Runner:
         flags = ['--unwind', str(Q.unwind)]
         uws = MEM_UNWIND + ((',' + Q.unwindset) if Q.unwindset else '') + ((',' + HB_UNWIND) if Q.q.get('opts', {}).get('hb') else '')
         flags += ['--unwindset', uws]
-        flags += ['--drop-unused-functions'] + solver_flags(solver) + list(Q.extra_flags)
+        flags += ['--drop-unused-functions', '--object-bits', '10'] + solver_flags(solver) + list(Q.extra_flags)
         if kind != 'verify': flags += ['--slice-formula']     # verify runs keep every nondeterministic draw in the trace (needed for the native replay)
         if kind == 'verify':
             flags += ['--unwinding-assertions', '--trace', '--stop-on-fail']
@@ -425,7 +432,7 @@ def main():
                 if not r.get('unreachable'):
                     f0_ = r['parsed']['failed'][0]
                     sc_ = extract_schedule(f0_['trace'], tn)
-                    ok_, why_ = native_replay(e['cfile'], sc_['draws'], R.work, Q.extra_flags)
+                    ok_, why_ = native_replay(e['cfile'], sc_['draws'], R.work, Q.extra_flags, expect=(f0_['description'] or ''))
                     rec['native_replay'] = dict(reproduced=ok_, detail=why_, draws=len(sc_['draws']))
                     if ok_ is not True:
                         broken += 1
@@ -438,7 +445,7 @@ def main():
                 f0 = r['parsed']['failed'][0]
                 sc = extract_schedule(f0['trace'], tn)
                 rp = os.path.join(ROOT, 'replays', a.pid, Q.name + '.json')
-                json.dump(dict(property=a.pid, query=Q.name, harness=Q.cpp, defines=list(Q.defines), q=Q.q, unwind=Q.unwind,
+                json.dump(dict(property=a.pid, query=Q.name, harness=Q.cpp, defines=list(Q.defines), cflags=list(Q.cflags), q=Q.q, unwind=Q.unwind,
                                failed=[dict(property=f['property'], description=f['description']) for f in r['parsed']['failed']],
                                schedule=sc['contexts'], nondet_draws=sc['draws'], solver=r['solver']), open(rp, 'w'), indent=1)
                 descs = '; '.join(sorted(set((f['description'] or '')[:90] for f in r['parsed']['failed'])))[:400]
